@@ -750,6 +750,8 @@ def sim_open(file, mode="r", *a, **kw):
         _fs_op("open_append", p)
         w = _SimWriter(p, keep=True)
         return w
+    if ("w" in mode or "x" in mode or "a" in mode) and not _os_shim.path.isdir(_real_os.path.dirname(p)):
+        raise FileNotFoundError(errno.ENOENT, "No such directory (simulated)", p)
     if "w" in mode or "x" in mode:
         _fs_op("open_write", p)
         _fs_eio("open_write", p)
@@ -782,7 +784,7 @@ class _SimPath:
     def exists(p):
         if FS.is_sim(p):
             p = FS.norm(p)
-            return p in FS.files or p in FS.dirs or p == SIMFS_ROOT
+            return p in FS.files or p in FS.dirs or p == SIMFS_ROOT or any(f.startswith(p + "/") for f in FS.files)
         return _real_os.path.exists(p)
 
     @staticmethod
@@ -794,7 +796,8 @@ class _SimPath:
     @staticmethod
     def isdir(p):
         if FS.is_sim(p):
-            return FS.norm(p) in FS.dirs
+            p = FS.norm(p)
+            return p in FS.dirs or p == SIMFS_ROOT or any(f.startswith(p + "/") for f in FS.files)
         return _real_os.path.isdir(p)
 
 
@@ -815,25 +818,44 @@ class _SimOs(types.ModuleType):
             p = FS.norm(p)
             if p in FS.dirs and not exist_ok:
                 raise FileExistsError(p)
-            FS.dirs.add(p)
+            while p.startswith(SIMFS_ROOT) and p != SIMFS_ROOT:
+                FS.dirs.add(p)
+                p = _real_os.path.dirname(p)
             return
         return _real_os.makedirs(p, mode, exist_ok)
 
     @staticmethod
-    def walk(top, *a, **kw):
-        if FS.is_sim(top):
-            t = FS.norm(top)
-            names = sorted(
-                _real_os.path.basename(f) for f in FS.files if _real_os.path.dirname(f) == t
-            )
-            sim = Sim.current
-            if sim is not None and len(names) > 1:
-                # directory order is a file-system property the code must not rely on
-                k = sim.choice("walk_order", len(names))
-                names = names[k:] + names[:k]
-            yield t, [], names
+    def walk(top, topdown=True, onerror=None, followlinks=False):
+        if not FS.is_sim(top):
+            yield from _real_os.walk(top, topdown, onerror, followlinks)
             return
-        yield from _real_os.walk(top, *a, **kw)
+        sim = Sim.current
+
+        def children(d):
+            files, dirs = [], set()
+            for f in FS.files:
+                if f.startswith(d + "/"):
+                    rest = f[len(d) + 1:]
+                    if "/" in rest:
+                        dirs.add(rest.split("/", 1)[0])
+                    else:
+                        files.append(rest)
+            for x in FS.dirs:
+                if x.startswith(d + "/") and "/" not in x[len(d) + 1:]:
+                    dirs.add(x[len(d) + 1:])
+            files, dirs = sorted(files), sorted(dirs)
+            if sim is not None and len(files) > 1:
+                # directory order is a file-system property the code must not rely on
+                k = sim.choice("walk_order", len(files))
+                files = files[k:] + files[:k]
+            return dirs, files
+
+        stack = [FS.norm(top)]
+        while stack:
+            d = stack.pop(0)
+            dirs, files = children(d)
+            yield d, dirs, files  # the caller may prune `dirs` in place, as with os.walk
+            stack = [d + "/" + x for x in dirs] + stack
 
     @staticmethod
     def listdir(p="."):
